@@ -383,6 +383,51 @@ def run(db: DB, rep: Report) -> None:
                           "%s writes %s (confined to the current Einsum's slot)" % (f.short, norm(tgt) if tgt is not None else "?"),
                           "%s mutates state of a component shared by all Einsums and the write is not "
                           "indexed first by the method's 'einsum' parameter" % f.short)
+    # state of the shared objects written from outside their own class
+    shared = {q for q in SHARED_OK if not q.endswith(".SBlock")}
+    shared |= {k.qualname for k in [comp] + comp.all_subclasses()}
+    n_ext = 0
+    for g in db.functions.values():
+        for n in walk_no_nested(g.node):
+            recv = None
+            kind = None
+            if isinstance(n, ast.Call) and isinstance(n.func, ast.Attribute) and n.func.attr in paths.MUTATORS:
+                t = db.type_of(n.func.value, g)
+                if not (t and t[0] == "cls"):
+                    recv, kind = n.func.value, n.func.attr + "()"
+            elif isinstance(n, (ast.Assign, ast.AugAssign, ast.Delete)):
+                for t_ in (n.targets if isinstance(n, (ast.Assign, ast.Delete)) else [n.target]):
+                    if isinstance(t_, ast.Subscript):
+                        recv, kind = t_.value, "subscript store"
+                    elif isinstance(t_, ast.Attribute) and not (isinstance(t_.value, ast.Name) and
+                                                                 t_.value.id == "self"):
+                        recv, kind = t_, "attribute store"
+            if recv is None:
+                continue
+            b = recv
+            while isinstance(b, ast.Subscript):
+                b = b.value
+            cands = [b]
+            if isinstance(b, ast.Name):
+                cands = [v for st, v in paths.defs_of(g.node, b.id) if v is not None]
+            for c_ in cands:
+                while isinstance(c_, ast.Subscript):
+                    c_ = c_.value
+                if not isinstance(c_, ast.Attribute):
+                    continue
+                bt = db.type_of(c_.value, g)
+                if not (bt and bt[0] == "cls" and bt[1] in shared):
+                    continue
+                owner = db.classes[bt[1]]
+                if g.cls is not None and (g.cls is owner or owner in g.cls.mro() or g.cls in owner.mro()):
+                    continue
+                n_ext += 1
+                rep.check("R5e", False, db.loc(n), g.short, "external-write:%s.%s" % (owner.name, c_.attr),
+                          "%s mutates %s.%s from outside" % (g.short, owner.name, c_.attr),
+                          "%s performs %s on %s.%s, a field of an object that is shared by all Einsums, from "
+                          "outside that class: state recorded while compiling one Einsum changes how a later "
+                          "one is compiled" % (g.short, kind, owner.name, c_.attr))
+    rep.extra["external_writes_to_shared_objects"] = n_ext
     # Program: anything written post-construction outside add_einsum/reset (+helpers)?
     for attr, ws in sorted(pcw.get(PROGRAM, {}).items()):
         for f, node, kind in ws:
@@ -596,7 +641,7 @@ def _check_passes(db: DB, rep: Report, T: ClassInfo, tr: FuncInfo) -> None:
 
 
 def mutants(db: DB):
-    from sa.selftest import M
+    from sa.selftest import M, Mutant, Edit
     ten, prog, hf = "teaal/ir/tensor.py", "teaal/ir/program.py", "teaal/trans/hifiber.py"
     return [
         M("reset forgets is_flat", ten, "        self.is_output = False\n        self.is_flat = False\n\n    def root_name",
@@ -640,6 +685,14 @@ def mutants(db: DB):
         M("TransUtils counter reset", "teaal/trans/utils.py", "        if self.count == -1:\n            raise ValueError(\"No previous temporary\")\n",
           "        if self.count == -1:\n            raise ValueError(\"No previous temporary\")\n        if self.count > 100:\n            self.count = 0\n",
           "R5e"),
+        Mutant("swizzle registry kept on the shared TransUtils", [
+            Edit("teaal/trans/utils.py", "        self.count = -1\n        self.program = program\n",
+                 "        self.count = -1\n        self.program = program\n        self.swizzled = set()\n"),
+            Edit("teaal/trans/header.py",
+                 "        if old_name == new_name:\n            return SBlock([])\n        else:\n            return TransUtils.build_swizzle(tensor, old_name, new_name)",
+                 "        if old_name == new_name:\n            return SBlock([])\n        swizzled = self.partitioner.trans_utils.swizzled\n"
+                 "        if new_name in swizzled:\n            return SBlock([])\n        swizzled.add(new_name)\n        return TransUtils.build_swizzle(tensor, old_name, new_name)")],
+            ("R5e",)),
         M("expand_eager not indexed by einsum", "teaal/ir/component.py", "self.bindings[einsum].append(", "self.bindings[tensor].append(",
           "R5e"),
     ]
